@@ -1,30 +1,58 @@
 //! Workload generators shared by the S-OUT properties: database shapes, updates, READ requests.
 
-use crate::verif::nodes::outstation::{event_group, event_vars, static_group, static_vars, OutCfg, PointCfg, UpdateOp};
+use crate::verif::nodes::outstation::{
+    event_group, event_vars, static_group, static_vars, OutCfg, PointCfg, UpdateOp,
+};
 use crate::verif::refcodec::app::{self as refapp, PointType, Range, ReqHeader, ALL_TYPES};
 use crate::verif::rng::Rng;
 use crate::verif::sout::{Dest, Op, SeqSel, Who};
 
 /// a small database: `ntypes` point types with 1..=max_per_type points each
-pub fn gen_points(rng: &mut Rng, ntypes: usize, max_per_type: usize, sparse: bool, allow_class0: bool) -> Vec<PointCfg> {
+pub fn gen_points(
+    rng: &mut Rng,
+    ntypes: usize,
+    max_per_type: usize,
+    sparse: bool,
+    allow_class0: bool,
+) -> Vec<PointCfg> {
     let mut types: Vec<PointType> = ALL_TYPES.to_vec();
     rng.shuffle(&mut types);
     types.truncate(ntypes.max(1));
     let mut points = Vec::new();
     for t in types {
         let n = rng.urange(1, max_per_type.max(1));
-        let mut index: u16 = if sparse && rng.chance(1, 3) { rng.u16() % 65000 } else { rng.below(3) as u16 };
+        let mut index: u16 = if sparse && rng.chance(1, 3) {
+            rng.u16() % 65000
+        } else {
+            rng.below(3) as u16
+        };
         let svar = *rng.pick(static_vars(t));
         let evar = *rng.pick(event_vars(t));
         for _ in 0..n {
             points.push(PointCfg {
                 ptype: t,
                 index,
-                class: if allow_class0 && rng.chance(1, 8) { 0 } else { rng.range(1, 3) as u8 },
-                svar: if rng.chance(1, 4) { *rng.pick(static_vars(t)) } else { svar },
-                evar: if rng.chance(1, 4) { *rng.pick(event_vars(t)) } else { evar },
+                class: if allow_class0 && rng.chance(1, 8) {
+                    0
+                } else {
+                    rng.range(1, 3) as u8
+                },
+                svar: if rng.chance(1, 4) {
+                    *rng.pick(static_vars(t))
+                } else {
+                    svar
+                },
+                evar: if rng.chance(1, 4) {
+                    *rng.pick(event_vars(t))
+                } else {
+                    evar
+                },
             });
-            let step = if sparse && rng.chance(1, 3) { rng.range(2, 300) as u16 } else { 1 };
+            let step = if sparse && rng.chance(1, 3) {
+                rng.range(2, 300) as u16
+            } else {
+                1
+            };
             index = match index.checked_add(step) {
                 Some(i) => i,
                 None => break,
@@ -62,7 +90,11 @@ pub fn gen_update(rng: &mut Rng, points: &[PointCfg], clock: &mut u64) -> Update
         }
     };
     // times mostly increase, sometimes jump back (forces a new common-time header)
-    *clock = if rng.chance(1, 10) { clock.saturating_sub(rng.below(70_000)) } else { *clock + rng.below(40_000) };
+    *clock = if rng.chance(1, 10) {
+        clock.saturating_sub(rng.below(70_000))
+    } else {
+        *clock + rng.below(40_000)
+    };
     let time = if rng.chance(1, 8) { None } else { Some(*clock) };
     UpdateOp {
         ptype: p.ptype,
@@ -109,7 +141,11 @@ pub fn gen_event_read(rng: &mut Rng, points: &[PointCfg]) -> Vec<ReqHeader> {
             let mask = rng.range(1, 7);
             for c in 1..=3u8 {
                 if mask & (1 << (c - 1)) != 0 {
-                    let limit = if rng.chance(1, 5) { Some(rng.range(1, 3) as u16) } else { None };
+                    let limit = if rng.chance(1, 5) {
+                        Some(rng.range(1, 3) as u16)
+                    } else {
+                        None
+                    };
                     headers.push(class_header(c, limit));
                 }
             }
@@ -121,7 +157,11 @@ pub fn gen_event_read(rng: &mut Rng, points: &[PointCfg]) -> Vec<ReqHeader> {
             if p.ptype == PointType::OctetString {
                 headers.push(ReqHeader::all(111, 0));
             } else {
-                let var = if rng.bool() { 0 } else { *rng.pick(event_vars(p.ptype)) };
+                let var = if rng.bool() {
+                    0
+                } else {
+                    *rng.pick(event_vars(p.ptype))
+                };
                 if rng.chance(1, 4) {
                     headers.push(ReqHeader {
                         group,
@@ -177,10 +217,27 @@ pub fn unsol_op(rng: &mut Rng, enable: bool) -> Op {
             headers.push(ReqHeader::all(60, c + 1));
         }
     }
-    simple_request(if enable { refapp::FUNC_ENABLE_UNSOL } else { refapp::FUNC_DISABLE_UNSOL }, headers)
+    simple_request(
+        if enable {
+            refapp::FUNC_ENABLE_UNSOL
+        } else {
+            refapp::FUNC_DISABLE_UNSOL
+        },
+        headers,
+    )
 }
 
-pub const LOCK_SITES: [&str; 9] = ["select", "write_response_headers", "get_events_info", "clear_written_events", "write_unsolicited", "reset", "wait_for_change", "wait_for_change", ""];
+pub const LOCK_SITES: [&str; 9] = [
+    "select",
+    "write_response_headers",
+    "get_events_info",
+    "clear_written_events",
+    "write_unsolicited",
+    "reset",
+    "wait_for_change",
+    "wait_for_change",
+    "",
+];
 
 /// random outstation configuration knobs shared by the event-related properties
 pub fn gen_event_cfg(rng: &mut Rng) -> OutCfg {
